@@ -488,14 +488,14 @@ func (db *SpecDB) LoadSpecFile(path, pkgPath string) error {
 					return fmt.Errorf("%s:%d: ghostvar needs '<name> <type> = <init>'", path, rc.line)
 				}
 				fs := strings.Fields(rc.rest[:i])
-				if len(fs) != 2 {
+				if len(fs) < 2 {
 					return fmt.Errorf("%s:%d: ghostvar needs '<name> <type> = <init>'", path, rc.line)
 				}
 				e, err := ParseExpr(rc.rest[i+1:])
 				if err != nil {
 					return fmt.Errorf("%s:%d: %v", path, rc.line, err)
 				}
-				cur.GhostVars = append(cur.GhostVars, GhostVar{Name: fs[0], Type: fs[1], Init: e})
+				cur.GhostVars = append(cur.GhostVars, GhostVar{Name: fs[0], Type: strings.Join(fs[1:], " "), Init: e})
 			case "on":
 				// on call <callee>: <var> = <expr>
 				rest := strings.TrimSpace(rc.rest)
@@ -503,8 +503,8 @@ func (db *SpecDB) LoadSpecFile(path, pkgPath string) error {
 					return fmt.Errorf("%s:%d: expected 'on call <callee>: var = expr'", path, rc.line)
 				}
 				rest = rest[5:]
-				i := strings.Index(rest, ":")
-				j := strings.Index(rest, "=")
+				i := strings.Index(rest, ": ")
+				j := i + strings.Index(rest[i+1:], "=") + 1
 				if i < 0 || j < i {
 					return fmt.Errorf("%s:%d: expected 'on call <callee>: var = expr'", path, rc.line)
 				}
@@ -607,9 +607,9 @@ func (db *SpecDB) LoadSpecFile(path, pkgPath string) error {
 					return fmt.Errorf("%s:%d: assert needs 'at call <callee>: expr'", path, rc.line)
 				}
 				rest = rest[len("at call "):]
-				i := strings.Index(rest, ":")
+				i := strings.Index(rest, ": ")
 				if i < 0 {
-					return fmt.Errorf("%s:%d: assert needs ':'", path, rc.line)
+					return fmt.Errorf("%s:%d: assert needs ': '", path, rc.line)
 				}
 				callee := strings.TrimSpace(rest[:i])
 				c, err := mk(rawClause{"assert", strings.TrimSpace(rest[i+1:]), rc.line}, fmt.Sprint(len(cur.Asserts)+1))
